@@ -752,12 +752,16 @@ int main()
                 std::vector<double> stream;
                 for (unsigned it = 0; it < lim; ++it)
                 {
+                    // RAW draws: uniformInBall(1, v) = uniformNormalVector(v) (v.size() = the PHS dimension) + uniformReal(0,1);
+                    // the model computes radiusScale = pow(u, 1/dim) and the ball point itself
                     double r1 = k > 1 ? twin.uniform01() : 0.0;
                     std::vector<double> v(w.n);
-                    twin.uniformInBall(1.0, v);
+                    twin.uniformNormalVector(v);
+                    double u = twin.uniformReal(0.0, 1.0);
                     double r2 = k > 1 ? twin.uniform01() : 0.0;
                     stream.push_back(r1);
                     stream.insert(stream.end(), v.begin(), v.end());
+                    stream.push_back(u);
                     stream.push_back(r2);
                 }
                 if (op == "supp")
